@@ -22,15 +22,12 @@ def main(ctx: Ctx):
     per = None if T else {'thread': 12, 'process': 6, 'remote': 5}
     cases, _ = landing.plan(ctx, meta, list(inject.KINDS), ['r', 'u'] + (['b'] if T else []), ['raise', 'terminate'] + (['kill'] if T else []), per_prog=per, assigns=True)
     recs = landing.run_cases(ctx, cases, stateful=True)
-    for i, rec in enumerate(recs):
+    def evaluate(ctx, rec):
         r = rec['real']
         kind = inject.KINDS[rec['prog']][2]
-        ctx.case((rec['prog'], rec['target'], rec['k'], rec['mode']), rec['k'] is not None,
-                 sample={**landing.describe(rec), 'alive_state': r.get('alive_state'), 'user_state': r.get('user_state')} if i % 41 == 0 else None)
-        ctx.count(f'{kind}:{rec["mode"]}')
         landing.correspond(ctx, rec)
         if r.get('ctor') != 'ok' or 'obs' not in r or not r.get('dead'):
-            continue
+            return
         d = {**landing.describe(rec), 'alive_state': r.get('alive_state'), 'user_state': r.get('user_state')}
         # while alive: initial value (process / remote kinds)
         if kind != 'thread' and r.get('alive_state') not in (None, INIT):
@@ -51,6 +48,13 @@ def main(ctx: Ctx):
         if reported and ran_work and r.get('user_state') != LAST:
             ctx.fail(f'final-state-lost:{kind}:target={rec["target"]}:{rec["mode"]}',
                      f'{rec["prog"]} target={rec["target"]}: the worker reported its outcome ({o}) but the parent\'s user_state is {r.get("user_state")} instead of the last assigned {LAST} (event at line {line})', d)
+    for i, rec in enumerate(recs):
+        r = rec['real']
+        kind = inject.KINDS[rec['prog']][2]
+        ctx.case((rec['prog'], rec['target'], rec['k'], rec['mode']), rec['k'] is not None,
+                 sample={**landing.describe(rec), 'alive_state': r.get('alive_state'), 'user_state': r.get('user_state')} if i % 41 == 0 else None)
+        ctx.count(f'{kind}:{rec["mode"]}')
+        landing.judge(ctx, rec, evaluate, stateful=True)
     # ---- setter from the parent, restart chains, re-creation chains
     sess = inject.Session()
     try:
